@@ -9,7 +9,7 @@ from .. import dyn
 from .. import resets as RS
 from ..choice import ChoiceRng
 from ..desc import sdesc, tup
-from ..pool import pmap
+from ..pool import pmap, replay_in_new_interpreter
 
 
 def judge_point(name, params, limit, seeds):
@@ -28,6 +28,8 @@ def judge_point(name, params, limit, seeds):
 
     for choices, res in outs:
         if isinstance(res, tuple):
+            if res[1] == 'HistoryDependence':
+                return fail(res[2], choices, 'depends_on_earlier_calls')
             if res[1] != 'ValueError':
                 return fail(f'raised {res[1]}: {res[2]} (only ValueError may reject parameters)', choices, 'wrong_exception')
             if shipped:
@@ -40,6 +42,24 @@ def judge_point(name, params, limit, seeds):
         if m:
             return fail(m, choices, 'malformed')
     st['states'] = len(keys)
+    if keys and not isinstance(outs[0][1], tuple):
+        # the same point without an explicit generator (what an environment that was never seeded passes): the function
+        # falls back to the library-level generator, re-seeded here; same verdict as with a generator
+        from gym_gridverse.rng import reset_gv_rng
+        reset_gv_rng(len(keys))
+        res = RS.call(name, params, None)
+        st['resets'] += 1
+        if isinstance(res, tuple):
+            if res[1] != 'ValueError' or len(keys) == len([1 for _, r in outs if not isinstance(r, tuple)]):
+                st2, f = fail(f'called without a generator (rng=None): raised {res[1]}: {res[2]}', [], 'unseeded')
+                f['kind'] = 'unseeded'
+                return st2, f
+        else:
+            m = RS.wellformed(name, params, sdesc(res))
+            if m:
+                st2, f = fail(f'called without a generator (rng=None): {m}', [], 'unseeded')
+                f['kind'] = 'unseeded'
+                return st2, f
     if params['shape'][0] * params['shape'][1] <= 16 or shipped:
         # parameter validation must not depend on the library's debug flag
         from gym_gridverse.debugging import reset_gv_debug
@@ -136,8 +156,10 @@ def _work(job):
     pts, limit, seeds = job
     tot = {'points': 0, 'resets': 0, 'states': 0, 'valueerror': 0, 'complete': 0, 'replays': 0, 'accepting_points': 0}
     fails = []
-    for name, params in pts:
+    for pi, (name, params) in enumerate(pts):
         st, f = judge_point(name, params, limit, seeds)
+        if f is not None:
+            f['job'] = {'pts': [list(p) for p in pts[:pi + 1]], 'limit': limit, 'seeds': list(seeds)}
         tot['points'] += 1
         for k in ('resets', 'states', 'valueerror', 'complete', 'replays'):
             tot[k] += st[k]
@@ -149,6 +171,19 @@ def _work(job):
 
 
 def replay(case):
+    if case['kind'] == 'job':
+        # the points the exploration job ran before the failing one, in order (command line: a fresh process)
+        j = case['job']
+        pts = [(n, _params(p)) for n, p in j['pts']]
+        for g in _work((pts, j['limit'], tuple(j['seeds'])))[1]:
+            if dyn.same_case(case['inner'], g):
+                return g['message']
+        return None
+    if case['kind'] == 'unseeded':
+        res = RS.call(case['name'], _params(case['params']), None)
+        if isinstance(res, tuple):
+            return f'raised {res[1]}: {res[2]}'
+        return RS.wellformed(case['name'], _params(case['params']), sdesc(res))
     if case['kind'] == 'reset_debug':
         from gym_gridverse.debugging import reset_gv_debug
 
@@ -190,7 +225,7 @@ def run(rep, tier, seed):
     jobs = [(pts[i::256], limit, seeds) for i in range(256)]
     tot = {}
     fails = []
-    for t, fl in pmap(_work, jobs):
+    for t, fl in pmap(_work, jobs, fresh=True):
         for k, v in t.items():
             tot[k] = tot.get(k, 0) + v
         fails.extend(fl)
@@ -198,7 +233,7 @@ def run(rep, tier, seed):
         if f['kind'] == 'INTERNAL':
             raise SystemExit('INTERNAL: ' + f['message'])
     fails.sort(key=lambda f: f.get('simplicity', 0))
-    dyn.report_fails(rep, fails, replay)
+    dyn.report_fails(rep, fails, replay, job_replayer=lambda case: replay_in_new_interpreter('C13', case))
     rep.part('resets', **tot)
     if tot['complete'] < tot['points']:
         rep.cap(f"{tot['points'] - tot['complete']} of {tot['points']} parameter points explored with a deviation bound "
